@@ -1,33 +1,39 @@
 #!/usr/bin/env python3
-"""Applies every kept seeded change (seeded/<name>/patch.diff) to /repo, runs the quick checks of the properties given
-in its meta.json (plus any named on the command line), reverts, and records in meta.json which obligations caught it.
-/repo must be clean. usage: seed_matrix.py [name ...]"""
-import json, os, subprocess, sys, glob, re
+"""Applies every kept seeded change (seeded/<name>/patch.diff) to a scratch worktree of /repo's HEAD, runs the quick
+checks named in its meta.json (check_with, default: its property) against that worktree (hv check --repo), and records in
+meta.json which obligations caught it. /repo itself is not touched. usage: seed_matrix.py [name ...]"""
+import json, os, subprocess, sys, glob
 os.chdir('/verif')
-if subprocess.run(['git','-C','/repo','status','--porcelain'],capture_output=True,text=True).stdout.strip():
-    print('REFUSING: /repo has uncommitted changes'); sys.exit(2)
+WT='/tmp/seedmatrix_wt'
+subprocess.run(['git','-C','/repo','worktree','remove','--force',WT],capture_output=True)
+subprocess.run(['git','-C','/repo','worktree','add','--detach',WT,'HEAD'],check=True,capture_output=True)
 names = sys.argv[1:] or sorted(os.path.basename(d) for d in glob.glob('seeded/*') if os.path.isdir(d))
 rows=[]
-for n in names:
-    d='seeded/'+n
-    meta=json.load(open(d+'/meta.json'))
-    props=meta.get('check_with') or [meta['property']]
-    r=subprocess.run(['git','-C','/repo','apply','--check',os.path.abspath(d+'/patch.diff')],capture_output=True,text=True)
-    if r.returncode!=0:
-        rows.append((n,'patch does not apply to HEAD','')); continue
-    subprocess.run(['git','-C','/repo','apply',os.path.abspath(d+'/patch.diff')],check=True)
-    det={}
-    try:
-        for p in props:
-            out=subprocess.run(['bin/hv','check',p,'--tier','quick','--no-evidence'],capture_output=True,text=True).stdout
-            viol=[l.split('replay=')[1].split()[0].split('/')[-1].replace('.json','') for l in out.split('\n') if l.startswith('VIOLATION')]
-            und=[l[:160] for l in out.split('\n') if l.startswith('UNDECIDED')]
-            det[p]={'violations':viol,'undecided':und[:3]}
-    finally:
-        subprocess.run(['git','-C','/repo','checkout','--','.'],check=True)
-    caught=[p for p in det if det[p]['violations']]
-    meta['detected_by']=det
-    meta['caught']=bool(caught)
-    json.dump(meta,open(d+'/meta.json','w'),indent=1)
-    rows.append((n,'CAUGHT by '+','.join(caught) if caught else 'MISSED', '; '.join(v for p in det for v in det[p]['violations'][:2])[:150]))
-for r in rows: print('%-50s %-22s %s'%r)
+try:
+    for n in names:
+        d='seeded/'+n
+        meta=json.load(open(d+'/meta.json'))
+        props=meta.get('check_with') or [meta['property']]
+        patch=os.path.abspath(d+'/patch.diff')
+        r=subprocess.run(['git','-C',WT,'apply','--check',patch],capture_output=True,text=True)
+        if r.returncode!=0:
+            rows.append((n,'patch does not apply to HEAD','')); continue
+        subprocess.run(['git','-C',WT,'apply',patch],check=True)
+        det={}
+        try:
+            for p in props:
+                out=subprocess.run(['bin/hv','check',p,'--tier','quick','--no-evidence','--repo',WT],capture_output=True,text=True).stdout
+                viol=[l.split('replay=')[1].split()[0].split('/')[-1].replace('.json','') for l in out.split('\n') if l.startswith('VIOLATION')]
+                und=[l[:160] for l in out.split('\n') if l.startswith('UNDECIDED')]
+                det[p]={'violations':viol,'undecided':und[:3]}
+        finally:
+            subprocess.run(['git','-C',WT,'checkout','--','.'],check=True)
+            subprocess.run(['git','-C',WT,'clean','-fdq'],check=True)
+        caught=[p for p in det if det[p]['violations']]
+        meta['detected_by']=det
+        meta['caught']=bool(caught)
+        json.dump(meta,open(d+'/meta.json','w'),indent=1)
+        rows.append((n,'CAUGHT by '+','.join(caught) if caught else ('UNDECIDED only' if any(det[p]['undecided'] for p in det) else 'MISSED'), '; '.join(v for p in det for v in det[p]['violations'][:2])[:150]))
+        print('%-50s %-22s %s'%rows[-1], flush=True)
+finally:
+    subprocess.run(['git','-C','/repo','worktree','remove','--force',WT],capture_output=True)
